@@ -1,6 +1,6 @@
 """Which rules exist, which properties are claimed, their floors and evidence texts."""
 
-RULE_MODULES = ['descent', 'null', 'live', 'gate', 'alloc', 'immobile', 'reset', 'pool', 'stale', 'layer', 'twin', 'listsearch', 'steps', 'segflow', 'unchecked', 'panicsite', 'links', 'entity']
+RULE_MODULES = ['descent', 'null', 'live', 'gate', 'alloc', 'immobile', 'reset', 'pool', 'stale', 'layer', 'twin', 'listsearch', 'steps', 'segflow', 'unchecked', 'panicsite', 'links', 'entity', 'inorder']
 
 # rules whose instance set legitimately differs between debug and release-like MIR
 CONFIG_DEPENDENT_RULES = {'PANICSITE'}
@@ -80,9 +80,13 @@ prop('C07', """
 Static analysis (MIR/SSA). Decided clauses: the export emits a node's value only on the keep side of the liveness
 test of that very node, with the key-family predicate expiration > time (the same predicate function the gates use)
 [LIVE, GATE]; the list variant purges with retain(expiration > time) under the strict skip guard before reading the
-buffer [LIVE, GATE].""",
+buffer [LIVE, GATE]; the explicit-stack traversal is in-order: by a must-dataflow over the three pending fields of the
+top frame, a node is emitted only when its left child is consumed and it is itself still pending, the right child is
+pushed only after the node was dealt with, every field is cleared when consumed, a frame is popped only when nothing is
+pending, and the frame fields hold the links their names say [INORDER]; no panic in the traversal's index arithmetic
+[PANICSITE].""",
      ["C02 (in-order traversal of a search tree is key order)"],
-     {'LIVE': 3, 'GATE': 2})
+     {'LIVE': 3, 'GATE': 2, 'INORDER': 1, 'PANICSITE': 3})
 
 prop('C08', """
 Static analysis (MIR/SSA). Decided clause: first_index_less and first_index_less_by of MapTree and SetTree have the
